@@ -133,4 +133,48 @@ Section Apply.
       (rewrite setattr_clear with (f := f) by (auto; intros g Hg; apply sibs_clear_set; auto));
       rewrite set_nth_twice, cur_after_twice; reflexivity.
   Qed.
+
+  Lemma group_selects_none cur f i : fgroup f = None -> group_selects cur f i = None.
+  Proof. unfold group_selects. intros ->. reflexivity. Qed.
+
+  (* ---- repeated field: the record's value (one element, or a packed run) is appended ---- *)
+  Lemma step_list raw unk cur i f p value l :
+    nth_error fs i = Some f ->
+    field_by_number cd (pnum p) = Some (i, f) ->
+    wire_type_fits f (pwt p) = true ->
+    decode_value fuel' sc f p = Ok value ->
+    ptype_eqb (fty f) TMap = false ->
+    fgroup f = None -> default_of sc f = PList [] ->
+    ((nth i raw PPlaceholder = PPlaceholder /\ l = []) \/ nth i raw PPlaceholder = PList l) ->
+    step fuel' sc cd (Obj c raw true unk cur) p
+    = Ok (Obj c (set_nth i (PList (match value with PList vs => l ++ vs | _ => l ++ [value] end)) raw) true unk cur).
+  Proof.
+    intros Hf Hn Hfit Hdec Hmap Hg Hd Hslot.
+    unfold step, step_k. rewrite Hn, Hfit. cbn [negb]. rewrite Hdec. cbn [bind].
+    unfold getattr. fold cd. fold fs. rewrite Hf, (group_selects_none cur f i Hg).
+    destruct Hslot as [[Hx ->]|Hx]; rewrite Hx.
+    - rewrite Hd, Hmap. rewrite set_nth_twice. reflexivity.
+    - rewrite Hmap. reflexivity.
+  Qed.
+
+  (* ---- map field: the entry message's key and value are merged into the dict ---- *)
+  Lemma step_map raw unk cur i f p e e0 e1 k v d :
+    nth_error fs i = Some f ->
+    field_by_number cd (pnum p) = Some (i, f) ->
+    wire_type_fits f (pwt p) = true ->
+    decode_value fuel' sc f p = Ok (PMsg e) ->
+    ptype_eqb (fty f) TMap = true ->
+    fgroup f = None -> default_of sc f = PDict [] ->
+    ((nth i raw PPlaceholder = PPlaceholder /\ d = []) \/ nth i raw PPlaceholder = PDict d) ->
+    getattr sc e 0 = (e0, Ok k) -> getattr sc e 1 = (e1, Ok v) ->
+    step fuel' sc cd (Obj c raw true unk cur) p
+    = Ok (Obj c (set_nth i (PDict (dict_set d sc k v)) raw) true unk cur).
+  Proof.
+    intros Hf Hn Hfit Hdec Hmap Hg Hd Hslot Hk Hv.
+    unfold step, step_k. rewrite Hn, Hfit. cbn [negb]. rewrite Hdec. cbn [bind].
+    unfold getattr at 1. fold cd. fold fs. rewrite Hf, (group_selects_none cur f i Hg).
+    destruct Hslot as [[Hx ->]|Hx]; rewrite Hx.
+    - rewrite Hd, Hmap, Hk, Hv. rewrite set_nth_twice. reflexivity.
+    - rewrite Hmap, Hk, Hv. reflexivity.
+  Qed.
 End Apply.
